@@ -153,12 +153,16 @@ Proof.
     + simpl. rewrite !app_nil_r. reflexivity.
     + rewrite app_nil_r. repeat (apply Forall_app; split); auto. simpl. constructor; auto.
     + simpl. repeat split; auto. discriminate.
-  - intro H. inversion H. subst p. clear H. rewrite Hcommon. unfold exposed_inputs. rewrite Ev.
+  - destruct (omapM (mk_view t 3) (bucket TEXTANGENT ins)) as [tts|] eqn:E4; [|discriminate].
+    destruct (omapM (mk_view t 3) (bucket TEXBINORMAL ins)) as [tbs|] eqn:E5; [|discriminate].
+    intro H. inversion H. subst p. clear H. rewrite Hcommon. unfold exposed_inputs. rewrite Ev.
     split; [|split].
     + simpl. rewrite !app_nil_r. reflexivity.
     + rewrite app_nil_r. repeat (apply Forall_app; split); auto. simpl. constructor; auto.
     + simpl. repeat split; auto. discriminate.
-  - intro H. inversion H. subst p. clear H. rewrite Hcommon. unfold exposed_inputs. rewrite Ev.
+  - destruct (omapM (mk_view t 3) (bucket TEXTANGENT ins)) as [tts|] eqn:E4; [|discriminate].
+    destruct (omapM (mk_view t 3) (bucket TEXBINORMAL ins)) as [tbs|] eqn:E5; [|discriminate].
+    intro H. inversion H. subst p. clear H. rewrite Hcommon. unfold exposed_inputs. rewrite Ev.
     split; [|split].
     + simpl. rewrite !app_nil_r. reflexivity.
     + rewrite app_nil_r. repeat (apply Forall_app; split); auto. simpl. constructor; auto.
@@ -173,10 +177,10 @@ Proof.
   destruct (mk_view t 3 vi) as [vv|] eqn:E1; [|intro H; inversion H; subst; eapply mk_view_raise; eauto].
   destruct (first_view t 3 (bucket NORMAL ins)) as [nv|] eqn:E2; [|intro H; inversion H; subst; eapply first_view_raise; eauto].
   destruct (omapM (mk_view t 2) (bucket TEXCOORD ins)) as [tcs|] eqn:E3; [|intro H; inversion H; subst; eapply views_raise; eauto].
-  destruct kd; try discriminate.
-  destruct (omapM (mk_view t 3) (bucket TEXTANGENT ins)) as [tts|] eqn:E4; [|intro H; inversion H; subst; eapply views_raise; eauto].
-  destruct (omapM (mk_view t 3) (bucket TEXBINORMAL ins)) as [tbs|] eqn:E5; [|intro H; inversion H; subst; eapply views_raise; eauto].
-  discriminate.
+  destruct kd; try discriminate;
+  (destruct (omapM (mk_view t 3) (bucket TEXTANGENT ins)) as [tts|] eqn:E4; [|intro H; inversion H; subst; eapply views_raise; eauto];
+   destruct (omapM (mk_view t 3) (bucket TEXBINORMAL ins)) as [tbs|] eqn:E5; [|intro H; inversion H; subst; eapply views_raise; eauto];
+   discriminate).
 Qed.
 
 (* ---- the constructors *)
